@@ -246,6 +246,10 @@ class WSStream:
             # Closed first, so that the app cannot race a response of its own
             self.closed = True
             await self._send_error_response(400)
+            # The app has been started (the handshake was valid), tell it
+            await self.app_put(
+                {"type": "websocket.disconnect", "code": CloseReason.ABNORMAL_CLOSURE.value}
+            )
         elif isinstance(event, (Body, Data)):
             self.connection.receive_data(event.data)
             await self._handle_events()
